@@ -242,6 +242,22 @@ def _case(arg):
                 except Exception as exc:
                     res.violation(f"{tag}:{meth}:{form}:raised:{type(exc).__name__}",
                                   f"{tag}({pkey}).{meth}({form}) raised {type(exc).__name__}: {exc}", case)
+            # integer-dtype arrays (what UniformInteger hands to these maps): same values as the float call
+            if not inverse and (lo, hi) != (-1.0, 1.0) and meth in ("transform", "deriv", "deriv2", "deriv3") and name != "HyperbolicRTransform":
+                res.count()
+                ints = np.arange(1, 5)
+                keep_i = ints.copy()
+                try:
+                    gi = np.asarray(call(meth, ints), dtype=float)
+                    gf = np.asarray(call(meth, ints.astype(float)), dtype=float)
+                    if gi.shape != gf.shape or not np.allclose(gi, gf, rtol=1e-13, atol=0, equal_nan=False):
+                        res.violation(f"{tag}:{meth}:int-array:differs-from-float-array",
+                                      f"{tag}({pkey}).{meth}(integer array) = {gi} but the float array gives {gf}", case)
+                    if not np.array_equal(ints, keep_i) or ints.dtype != keep_i.dtype:
+                        res.violation(f"{tag}:{meth}:int-array:argument-modified", f"{tag}.{meth} modified its integer argument", case)
+                except Exception as exc:
+                    res.violation(f"{tag}:{meth}:int-array:raised:{type(exc).__name__}",
+                                  f"{tag}({pkey}).{meth}(integer array) raised {type(exc).__name__}: {exc}", case)
             try:  # plain Python float: observation only (docstrings type the argument as ndarray)
                 call(meth, float(a[len(a) // 2]))
             except Exception as exc:
